@@ -84,6 +84,11 @@ def make_header(ilines, xlines, samples, tracecount, hw_info, bits_per_voxel, bl
     buffer = bytearray(DISK_BLOCK_BYTES * header_blocks)
     buffer[0:4] = int_to_bytes(header_blocks)
     version = SeismicZfpVersion(pkg_resources.get_distribution('seismic_zfp').version)
+    # The layout written here (512-byte padded footer arrays, trace count field, microsecond sample interval) is
+    # the one readers apply to files newer than v0.2.1. An install without reachable tags reports an older
+    # version (setuptools_scm gives "0.1.devN+g..."): never stamp one which selects the older conventions.
+    if not version > SeismicZfpVersion("0.2.1"):
+        version = SeismicZfpVersion((0, 2, 2, ".dev"))
 
     buffer[4:8] = int_to_bytes(len(samples))
     buffer[16:20] = np_float_to_bytes_signed(samples[0])
